@@ -65,6 +65,29 @@ pub fn dispatch(fs: &[String]) -> String {
         "css_septable" => crate::cssops::septable(),
         "group" => group(a(1)),
         "total" => total(a(1), a(2), a(3), a(4) == "1"),
+        "static_value" => {
+            // the text/attribute value parser on plain text: the decoded static string (`dynamic` if it contains a binding)
+            let (v, _w, _i, _p) = tc::verif_hooks::verif_parse_value(a(1));
+            match v {
+                tc::parse::tag::Value::Static { value, .. } => esc(&value),
+                _ => "dynamic".to_string(),
+            }
+        }
+        "positions" => {
+            // steps: comma separated: `0` = next(), `w` = skip_whitespace(), n = skip_bytes(n)
+            let steps: Vec<usize> = a(2)
+                .split(',')
+                .filter(|x| !x.is_empty())
+                .map(|x| if x == "w" { usize::MAX } else { x.parse().unwrap_or(0) })
+                .collect();
+            tc::verif_hooks::verif_positions(a(1), &steps)
+                .iter()
+                .map(|(p, i)| format!("{}:{}:{}", p.line, p.utf16_col, i))
+                .collect::<Vec<_>>()
+                .join(" ")
+        }
+        "ast_locs" => crate::astdump::ast_locs(a(1)),
+        "strmap" => crate::astdump::strmap(a(1), a(2) == "1"),
         _ => "bad-op".to_string(),
     }
 }
